@@ -6,6 +6,10 @@
 // H-ideal hypothesis of unit memo_keys -- are part of analyze_pre; db_inv (the state part) is re-established by every
 // handler, so it is an INVARIANT of any sequence of didOpen / didChange / didClose notifications.
 // Needs additionally prelude/memokeys_spec.rs, memokeys_canon_spec.rs, visit_env.rs.
+// v3 (composed with unit uri_glue through prelude/lsp_backend_mut_v3.rs): uri_path is op_uri_to_path, and the invariant
+// of the URI cache (cache_inv, prelude/uri_spec.rs: every remembered URI is one uri_to_path maps to its key) is KEPT by
+// all three handlers -- proved on the real bodies (separate ensures clause cache_inv_kept of each handler) and again at
+// L2 from the *_post relations (lemma_srv_inv_is_invariant).
 
 /// the state hypotheses of an analysis: environment hypothesis + invariants of the two memo tables analyze_file reads
 pub open spec fn db_inv(o: FixtureDatabase) -> bool {
@@ -73,3 +77,12 @@ pub open spec fn did_close_post(o: Backend, s: Backend, uri: Uri) -> bool {
         },
     }
 }
+
+/// v3: the handler keeps the invariant of the URI cache
+pub open spec fn cache_inv_kept(o: Backend, s: Backend) -> bool { cache_inv(o.uri_cache.m()) ==> cache_inv(s.uri_cache.m()) }
+/// v3: after didOpen(uri) of a URI with a path, path_to_uri answers the document's path with the client's OWN URI
+pub open spec fn own_uri_after_open(s: Backend, uri: Uri) -> bool {
+    uri_path(uri) is Some ==> path_uri(s.uri_cache, uri_path(uri)->0) == Some(uri)
+}
+/// v3: the invariant of the whole server state the notification handlers keep: database part + URI cache part
+pub open spec fn srv_inv(o: Backend) -> bool { db_inv(o.fixture_db) && cache_inv(o.uri_cache.m()) }
